@@ -382,7 +382,7 @@ func init() {
 			"(c) patterns whose segments are 32765..32770 and 65540 bytes long (ASCII and 3-byte characters, so that the limit is also crossed in characters but not in bytes and vice versa) after literal text and after each kind of parameter, through the same trial as every enumerated pattern",
 			"(a) every state of the C03 history search up to the depth bound is probed with 6 method strings (incl. empty and unknown) x hostile paths: '', '*', all strings over {/ a { } : * 0x00 0x80 0xff} up to length 2-3, witnesses and their edit-1 neighbours, 32767/32768/65536-byte paths",
 			"(a') groups with one router behind each matcher kind (Hosts, path version, header version, And, Or, nil) x hostile Host strings (all strings over {a . : [ ] * { 0xff} up to length 3 and a fixed list) x paths x Accept values; matchers also called directly; requests whose header map holds Accept / Host / Origin / Content-Type with an empty or nil value list",
-			"(a'') every CORS configuration of C11 x every request of its product extended with malformed Access-Control-Request-Headers values: no panic",
+			"(a'') every CORS configuration of C11 and eight more whose origin / header / exposed lists have empty members x every request of its product extended with malformed Access-Control-Request-Headers values: no panic",
 			"(b) every pattern string over {/ a b { } : - \\ d + ( *} up to the length bound (quick: length 6 only for strings starting with '/{' or '{', length 5 otherwise), and every rule text over {a b ( ) | \\ d + * [ ] ? ^ $} up to the rule bound wrapped as /{a:R}, /{a:R}/b, /{-a:R}b, /a/{a:R}, through CheckSyntax, mux.URL, Router.URL (strict and not), Handle on a fresh and on a populated router, then served",
 			"a harness handler never panics on its own; a nil handler given to the CallFunc counts as a router fault")
 		for _, cfg := range []RouterCfg{{}, {Trace: true}} {
@@ -397,6 +397,11 @@ func init() {
 		var ci []corsItem
 		for _, c := range corsConfigs() {
 			ci = append(ci, corsItem{Prop: "C05", Cfg: c})
+		}
+		// allow-lists with an empty member (strings.Split("X-Tok,", ",")): odd, legal, and no reason to fault
+		for _, h := range [][]string{{"X-Tok", ""}, {"", "X-Tok"}, {""}, {"", ""}} {
+			ci = append(ci, corsItem{Prop: "C05", Cfg: corsCfg{Origins: []string{"https://a"}, Headers: h, Cred: true}},
+				corsItem{Prop: "C05", Cfg: corsCfg{Origins: []string{"", "https://a"}, Headers: h, Exposed: []string{""}}})
 		}
 		explore.ParMap(rc, "c11/config", ci, func(i int, in corsItem, o simpleOut) { mergeSimple(rc, o, "cors_requests") })
 		var pi []c05PatItem
